@@ -58,6 +58,8 @@ def gen(seed):
             terms.append(('svc', s, [rnd.choice(PRIMES) for _ in sv['params']]))
         if d['kind'] == 'inv' and not d['bkms']:
             d['kind'] = 'lit'
+        # a name that occurs in no requirement closure is null for the logic, whatever the caller supplies under that name
+        terms.append(('unrel',))
         if k in (1, 4) and rnd.random() < 0.8:
             # the knowledge model K6 is called with a constant and the input of its parameter's name is read AFTER the call
             d['inputs'] = sorted(set(d['inputs'] + ['In A']))
@@ -105,6 +107,9 @@ def gen(seed):
                 # a knowledge model that requires the first service and calls it as a function with its own argument for every parameter
                 m.bkm['K4'] = {'c': rnd.choice(PRIMES[:8]), 'd': rnd.choice(PRIMES[8:]), 'req': [b for b in ('K2',) if rnd.random() < 0.5], 'svc': sname}
     m.order = order
+    # a sink decision whose logic is a boxed relation: columns named like an input and like a required decision; every cell is evaluated over
+    # the decision's own context, so `In A` in the second cell is the input, not the first cell
+    m.rel = {'w': [rnd.choice(PRIMES) for _ in range(3)], 'dec': 'Dec 1'}
     return m
 
 
@@ -115,6 +120,8 @@ def expr_text(m, d):
             parts.append(str(t[1]))
         elif t[0] == 'var':
             parts.append('%d * %s' % (t[1], t[2]))
+        elif t[0] == 'unrel':
+            parts.append('(if Unrelated = null then 0 else 1000003)')
         elif t[0] == 'k6':
             parts.append('K6(%d) + %d * In A' % (t[1], t[2]))
         elif t[0] == 'bkm':
@@ -186,6 +193,11 @@ def xml(m):
             body = ''.join('<outputDecision href="#%s"/>' % ident(o) for o in s['outs']) + ''.join('<encapsulatedDecision href="#%s"/>' % ident(o) for o in s['enc'])
             body += ''.join('<inputDecision href="#%s"/>' % ident(o) for o in s['indec']) + ''.join('<inputData href="#%s"/>' % ident(o) for o in s['ins'])
             out.append('  <decisionService name="%s" id="%s"><variable name="%s"/>%s</decisionService>' % (n, ident(n), n, body))
+    w = m.rel['w']
+    cells = [['In A + %d' % w[0], 'Dec 1 + In A', 'Dec 1 + %d * In A' % w[1]], ['%d' % w[2], 'In B', 'In A']]
+    rows = ''.join('<row>' + ''.join('<literalExpression><text>%s</text></literalExpression>' % c for c in r) + '</row>' for r in cells)
+    out.append('  <decision name="Rel" id="_Rel"><variable name="Rel"/><informationRequirement><requiredInput href="#_In_A"/></informationRequirement><informationRequirement><requiredInput href="#_In_B"/></informationRequirement>'
+               '<informationRequirement><requiredDecision href="#_Dec_1"/></informationRequirement><relation><column name="In A"/><column name="Dec 1"/><column name="total"/>%s</relation></decision>' % rows)
     out.append('</definitions>')
     return '\n'.join(out)
 
@@ -204,6 +216,8 @@ def ev_term(m, t, env):
         return t[1]
     if t[0] == 'var':
         return t[1] * env[t[2]]
+    if t[0] == 'unrel':
+        return 0
     if t[0] == 'k6':
         b = m.bkm['K6']
         return t[1] * b['c'] + b['d'] + t[2] * env['In A']
@@ -294,6 +308,14 @@ def main():
                     if g != want:
                         fails.append('model %d (seed %d) %s with %s => %s (expected %s); logic: %s' % (k, seed, name, c, (g or 'no answer')[:80], want,
                                      expr_text(m, m.dec[name])[:160] if name in m.dec else 'service %r' % m.svc[name]))
+            for c in (base, extra):
+                cases += 1
+                d1 = ev_dec(m, 'Dec 1', inp)
+                w = m.rel['w']
+                want = '[{Dec 1: %d, In A: %d, total: %d}, {Dec 1: %d, In A: %d, total: %d}]' % (d1 + inp['In A'], inp['In A'] + w[0], d1 + w[1] * inp['In A'], inp['In B'], w[2], inp['In A'])
+                g = got.get(('Rel', c))
+                if g != want:
+                    fails.append('model %d (seed %d) Rel (boxed relation) with %s => %s (expected %s)' % (k, seed, c, (g or 'no answer')[:120], want))
             for name in m.order:
                 if name in m.svc and m.svc[name]['indec']:
                     cases += 1
